@@ -172,9 +172,35 @@ def token_len_rule(ctx, R):
 
 
 def builder_first_match(ctx, R):
-    """shared by C16-R6 and C01-R6"""
+    """shared by C16-R6, C01-R6 and C02-R5"""
     P = ctx.prog
     ins = ctx.body(TB + "::insert")
+    # both look-up paths (the root cache and the sibling walk) adopt an existing child only if that does not overwrite a
+    # token: `is_last_byte && child.token_id != NO_TOKEN` must fall through to "append a new node" on BOTH paths, otherwise
+    # one of two ids with identical bytes vanishes from the trie (mask walks the trie; commit reads the byte table)
+    def tok_unset(e):
+        return e[0] == "bin" and e[1] == "Eq" and L.is_field_read(BN, "token_id")(L.strip_wrappers(e[2])) and "NO_TOKEN" in repr(e[3])
+    def tok_set(e):
+        return e[0] == "bin" and e[1] == "Ne" and L.is_field_read(BN, "token_id")(L.strip_wrappers(e[2])) and "NO_TOKEN" in repr(e[3])
+    def is_last(e):
+        # `i == word.len() - 1`
+        if not (e[0] == "bin" and e[1] == "Eq"):
+            return False
+        t = repr(e)
+        return "Sub" in t and "len" in t
+    g = L.guard_edges_multi(ins, [(tok_unset, True), (tok_set, False), (is_last, False)])
+    adopt = []
+    for l in range(len(ins.locals)):
+        if ins.local_ty(l) == "bool" and ins.locals[l].get("n"):
+            for (bi, si, kind, r) in ins.defs().get(l, []):
+                if kind == "assign" and r["rv"] == "use" and r["o"].get("iv") == "1":
+                    adopt.append(bi)
+    still = L.dominated_by_cut(ins, adopt, g) if g else adopt
+    ctx.check(len(adopt) >= 2 and bool(g) and not still, R, "insert:duplicate-token-gets-own-node",
+              "an existing child is adopted on %d paths, each only when this is not the last byte or the child holds no token yet" % len(adopt),
+              "TrieBuilder::insert adopts an existing child on a path that does not test `is_last_byte && token_id != NO_TOKEN` "
+              "(%s): the second of two ids with identical bytes overwrites the first, which then can never appear in a mask "
+              "although commit and validation accept it" % [ins.where(b_) for b_ in still], site=ins.where(still[0]) if still else ins.where())
     # first-match agreement: readers (child_at_byte, the root cache) continue a path through the FIRST child with a given byte;
     # the builder must therefore search the whole sibling list (first_child, then next_sibling ...) before it appends a new
     # child — looking only at the most recent child makes duplicates of a prefix hang their subtree under a later sibling
@@ -287,6 +313,33 @@ def run(ctx):
               "clear_excessive_bits never looks at where the storage ends (no data.len(), no iteration or slice to the end of `data`): it "
               "can only clear inside the word that holds bit `size`, so when the storage has spare words (alloc_token_set: vocab_size + 1 "
               "bits with vocab_size a multiple of 32) negated()/set_all(true) leave ids >= size set", site=cb_.where())
+    # trim_trailing_zeros: if the backwards scan for the last non-zero word starts from an index derived from `size` by a
+    # floor division by the word size, the last partially used word is skipped (and truncated although it has set bits).
+    # Starting at data.len() — or any other idiom — is not judged.
+    tz = ctx.body(SV + "trim_trailing_zeros")
+    floor_starts = []
+    for l, ds in tz.defs().items():
+        if not tz.locals[l].get("n") or len(ds) < 2:
+            continue
+        idom_ = tz.dominators()
+        first = [d for d in ds if all(tz.dominates(d[0], o[0], idom_) for o in ds)]
+        for (bi, si, kind, payload) in first:
+            if kind == "call":
+                rr = "call:%s(%s)" % (payload["f"].get("def", "?").rsplit("::", 1)[-1], ",".join(L.role(tz, a, depth=10) for a in payload["args"]))
+            elif kind == "assign" and payload["rv"] == "use":
+                rr = L.role(tz, payload["o"], depth=10)
+            elif kind == "assign":
+                rr = F.fmt_expr(tz.expr_rvalue(payload))
+            else:
+                continue
+            rr_ = rr.replace(" ", "")
+            if ".size" in rr_ and "Div" in rr_ and "div_ceil" not in rr_ and "Add" not in rr_:
+                floor_starts.append((bi, rr))
+    ctx.check(not floor_starts, "C16-R2", "trim_trailing_zeros:scan-covers-partial-word",
+              "the backwards scan does not start at size / 32 (floor)",
+              "trim_trailing_zeros starts its scan at `%s`: with a size that is not a multiple of 32 the last, partially used word is "
+              "never examined and is cut off although it holds set bits (slice masks lose the highest token ids)"
+              % (floor_starts[0][1] if floor_starts else ""), site=tz.where(floor_starts[0][0]) if floor_starts else tz.where())
     sa = ctx.body(SV + "set_all")
     g = L.guard_edges(sa, lambda e: e[0] in ("place", "local") and (e[1] if e[0] == "local" else e[1][0]) == 2, True)
     clr = sa.call_blocks(ceb)
